@@ -171,6 +171,9 @@ func runC19(tier string) int {
 			if byInput[rf.input] == nil {
 				byInput[rf.input] = map[string]c19Witness{}
 			}
+			if o.Status == "slow-unconfirmed" {
+				continue // no verdict from a case that was neither completed nor confirmed as a hang
+			}
 			sigs := outcomeSignatures(o)
 			if o.Status == "hang" {
 				hangs++
